@@ -24,6 +24,33 @@ FLOW = ["false", "true", "( exit 4 )", "ffail", "fok", "no_such_cmd_zz", "! fals
 # the other front-ends, which is C03's subject, so they are not part of this differential family)
 TERMS = [("", 1), ("exit 0", 1), ("exit 3", 1), ("set -e; false", 1), ("floop0", 1), ("floop5", 1),
          ("exec sh -c 'exit 6'", 0)]
+# `exit n` (also through a die() helper, errexit) raised in EVERY syntactic position of a compound command
+TERMS_POS = [
+    "if false; then :; elif false || exit 3; then echo NOTREACHED; else echo NOTREACHED; fi",
+    "if false; then :; elif fdie; then echo NOTREACHED; else echo NOTREACHED; fi",
+    "if false || exit 3; then echo NOTREACHED; fi",
+    "if false; then :; elif false; then :; elif exit 0; then echo NOTREACHED; else echo NOTREACHED; fi",
+    "if false; then :; elif false; then :; else exit 3; fi",
+    "while false || exit 3; do echo NOTREACHED; done",
+    "while true; do exit 0; done",
+    "until true && exit 3; do echo NOTREACHED; done",
+    "case x in y) :;; x) exit 3;; esac",
+    "case $(echo x) in x) fdie;; esac",
+    "for ((i=0; i<2; i++)); do exit 3; done",
+    "for i in 1 2; do if false; then :; elif [[ a == b ]] || fdie; then echo NOTREACHED; fi; done",
+    "for i in 1 2; do while true; do until false; do exit 5; done; done; done",
+    "while true; do if false; then :; elif exit 5; then echo NOTREACHED; fi; done",
+    "fcond",
+    "eval 'if false; then :; elif exit 3; then echo NOTREACHED; fi'",
+    "{ if false; then :; elif fdie; then echo NOTREACHED; fi; }",
+    "[[ -n x ]] && (( 1 )) && exit 3",
+    "if (( 0 )); then :; elif [[ a == a ]] && exit 3; then echo NOTREACHED; fi",
+    "set -e; if false; then :; elif false; then echo NOTREACHED; else false; echo NOTREACHED; fi",
+    "set -e; while true; do false; echo NOTREACHED; done",
+    "set -e; case x in x) false; echo NOTREACHED;; esac",
+]
+TERMS = TERMS + [(x, 1) for x in TERMS_POS]
+IN_FUNCTION_EXIT = ("floop0", "floop5", "fcond", "fdie")
 # bash runs the EXIT trap of an `exit` executed inside a function while still in the function's context (so without
 # errtrace the ERR trap is not consulted there); brush unwinds first. Observation recorded in notes/C16.md; the
 # family keeps failing commands out of the EXIT handler on those paths.
@@ -36,7 +63,9 @@ fcomp() { COMPREPLY=(ca cb); }
 fdiv() { : $((1/0)); }
 fnest() { compgen -F nofn -- q; false; }
 floop0() { for i in 1 2; do eval 'exit 0'; done; }
-floop5() { for i in 1 2; do eval 'exit 5'; done; }"""
+floop5() { for i in 1 2; do eval 'exit 5'; done; }
+fdie() { exit 4; }
+fcond() { if false; then :; elif exit 3; then echo NOTREACHED; fi; echo NOTREACHED; }"""
 
 
 def scenarios(seed, n):
@@ -61,14 +90,18 @@ def scenarios(seed, n):
                 lines.append("trap '%s' DEBUG" % dbg)
         m = 0
         term, nexit = rng.choice(TERMS)
-        if term == "set -e; false" and eb not in (None, "", "fok"):
+        if term.startswith("set -e") and term in TERMS_POS and eb is not None:
+            # under errexit brush runs the ERR handler once more for the compound command that carries the exit
+            # (same root as KF-C16-err-fires-on-exit-builtin, but with status 1): keep ERR out of these paths
+            term = "set -e; false"
+        if term.startswith("set -e") and eb not in (None, "", "fok"):
             # a failing command in the ERR handler under errexit ends the shell from inside the handler: that is
             # the known finding KF-C16-exit-in-handler (handler's ExitShell dropped), covered by the modelled family
             term, nexit = "exit 0", 1
         # an ERR handler that replaces itself makes the extra handler run of the known divergence
         # (KF-C16-err-fires-on-exit-builtin) change what is printed later: keep those two apart
         selfrep = eb is not None and "Be2" in eb
-        if selfrep and term in ("exit 3", "floop5"):
+        if selfrep and term not in ("", "exit 0", "floop0", "exec sh -c 'exit 6'"):
             term, nexit = "exit 0", 1
         flow = [f for f in FLOW if not (selfrep and f in ("fret3", "( exit 4 )"))]
         # bash delivers ERR inside a completion function when errtrace is on; brush blocks trap delivery there
@@ -80,7 +113,7 @@ def scenarios(seed, n):
             lines.append(rng.choice(flow)); m += 1; lines.append("echo M%d $?" % m)
             if rng.random() < 0.25:
                 lines.append(rng.choice(pre_ops)); m += 1; lines.append("echo M%d $?" % m)
-        if term in ("floop0", "floop5", "set -e; false") and xb not in EXIT_BODIES_QUIET:
+        if (term.startswith("set -e") or any(f in term for f in IN_FUNCTION_EXIT)) and xb not in EXIT_BODIES_QUIET:
             term, nexit = "exit 0", 1
         if term:
             lines.append(term)
@@ -88,6 +121,21 @@ def scenarios(seed, n):
         meta = {"exit_runs": nexit, "err": eb is not None, "term": term, "errtrace": errtrace, "debug": dbg,
                 "exit_body": xb, "err_body": eb}
         out.append(("\n".join(lines) + "\n", meta))
+    # invocation flags and `set` options that create extra termination paths (parity with bash exists for
+    # one-command mode only on the stdin front-end; -e on all three)
+    for k in range(max(6, n // 10)):
+        st = rng.choice([0, 3, 4])
+        first = "trap 'echo Bx $?; echo Ex $?' EXIT; echo M1 $?; ( exit %d )" % st
+        out.append((first + "\necho NOTREACHED\n",
+                    {"exit_runs": 1, "err": False, "term": "-t (one command)", "fes": ["s:-t"], "debug": None}))
+        body = ["trap 'echo Bx $?; echo Ex $?' EXIT"]
+        if rng.random() < 0.5:
+            body.append("trap 'echo Be $?; echo Ee $?' ERR")
+        body += [rng.choice(["true", "false", "( exit 4 )"]), "echo M1 $?", "set -t", "echo NOTREACHED"]
+        out.append(("\n".join(body) + "\n", {"exit_runs": 1, "err": len(body) == 6, "term": "set -t", "fes": ["s"], "debug": None}))
+        body = ["trap 'echo Bx $?; echo Ex $?' EXIT", "echo M1 $?", rng.choice(["true", "if false; then :; fi", "false || true"]),
+                "echo M2 $?", rng.choice(["false", "( exit 4 )", "if true; then false; fi", "fz() { false; }; fz"]), "echo NOTREACHED"]
+        out.append(("\n".join(body) + "\n", {"exit_runs": 1, "err": False, "term": "-e flag", "fes": ["c:-e", "f:-e", "s:-e"], "debug": None}))
     return out
 
 
@@ -105,7 +153,7 @@ def oracle(meta, status, text):
             open_ = []   # the shell is on its way out: whatever handler was running is gone
         if p[0][:1] == "B" and len(p[0]) > 1:
             tag = p[0][1:]
-            if tag in open_ and meta["term"] != "set -e; false":
+            if tag in open_ and not meta["term"].startswith("set -e"):
                 return "the %s handler was entered again while it was still running (lines %r)" % (
                     {"x": "EXIT", "e": "ERR"}.get(tag[0], tag), ls[:12])
             open_.append(tag)
@@ -172,13 +220,13 @@ def run_scenarios(ctx, n):
     scs = scenarios(ctx.seed, n)
     cases_v, cases_b, idx = [], [], []
     for si, (text, meta) in enumerate(scs):
-        for fe in c16.FES:
+        for fe in meta.get("fes", c16.FES):
             cases_v.append([fe, "v", text]); cases_b.append([fe, "b", text]); idx.append((si, fe))
     outv = ctx.impl("trapsproc", cases_v, shards=min(core.NPROC, 12))
     outb = ctx.impl("trapsproc", cases_b, shards=min(core.NPROC, 12))
     specv = []
     st = {"runs": 0, "bash_equal": 0, "known_err_on_exit": 0, "bash_unusable": 0, "with_debug_trap": 0,
-          "with_suppression_op": 0}
+          "with_suppression_op": 0, "exit_in_compound_position": 0, "flag_or_set_option_path": 0}
 
     def dec(line):
         if not line or line.startswith(("TIMEOUT", "SPAWNFAIL", "DIED")):
@@ -190,10 +238,13 @@ def run_scenarios(ctx, n):
             return None
     for k, (si, fe) in enumerate(idx):
         text, meta = scs[si]
-        inp = {"frontend": {"c": "-c", "f": "script file", "s": "stdin"}[fe], "script": text, "family": "differential trap scenarios"}
+        inp = {"frontend": {"c": "-c", "f": "script file", "s": "stdin"}[fe[0]] + (" with flags " + fe[2:] if ":" in fe else ""),
+               "script": text, "family": "differential trap scenarios"}
         st["runs"] += 1
-        st["with_debug_trap"] += meta["debug"] is not None
-        st["with_suppression_op"] += "compgen" in text.split("floop5()")[1] or "complete -F" in text
+        st["with_debug_trap"] += meta.get("debug") is not None
+        st["with_suppression_op"] += ("compgen" in text.split("fcond()")[1] if "fcond()" in text else False) or "complete -F" in text
+        st["exit_in_compound_position"] += meta["term"] in TERMS_POS
+        st["flag_or_set_option_path"] += "fes" in meta
         c, b = dec(outv[k]), dec(outb[k])
         if c is None:
             specv.append({"input": inp, "why": "the shell did not terminate normally: %s" % outv[k][:80]})
